@@ -8,7 +8,7 @@
 (*                                                                         *)
 (* Metric values are tokens: integers >= 0, NaN (-1).  IEEE / Python        *)
 (* semantics: every comparison with NaN is false, NaN poisons a sum.        *)
-(* A run is: Handed(t, v)* interleaved with Deliver(t, v, d)*, then Final.  *)
+(* A run is: Handed(t, v)* interleaved with Deliver(t, v, d, c)*, then Final.*)
 (***************************************************************************)
 EXTENDS Integers, Sequences, FiniteSets, TLC
 
@@ -18,7 +18,8 @@ NaN == -1
 
 VARIABLES cf,        \* [min : BOOLEAN, min2 : BOOLEAN]
           handed,    \* Seq of <<t, v>>: every result the back-end handed to the tuning loop, in order
-          delivered, \* Seq of <<t, v, d>>: results passed to the scheduler with its decision, in order
+          delivered, \* Seq of <<t, v, d, c>>: results passed to the scheduler with its decision, in order; c = token of the
+                     \* categorical value in the trial's configuration at that time (text such as "None", "NA", "l2")
           flags
 vars == <<cf, handed, delivered, flags>>
 Flag(c, f) == IF c THEN {f} ELSE {}
@@ -33,8 +34,8 @@ Opt(S)     == IF cf.min THEN MinSet(S) ELSE MaxSet(S)
 
 EvHanded(t, v) ==
   /\ handed' = Append(handed, <<t, v>>) /\ UNCHANGED <<cf, delivered, flags>>
-EvDeliver(t, v, d) ==
-  /\ delivered' = Append(delivered, <<t, v, d>>)
+EvDeliver(t, v, d, c) ==
+  /\ delivered' = Append(delivered, <<t, v, d, c>>)
   /\ flags' = flags \cup Flag(~\E i \in 1..Len(handed) : handed[i] = <<t, v>>, "delivered_not_handed")
   /\ UNCHANGED <<cf, handed>>
 
@@ -44,7 +45,8 @@ StatOK(s, st) ==
   /\ IF Num(s) = {} THEN TRUE      \* no numeric value: nothing to compare (the statistics hold no finite entry)
      ELSE /\ st[5] /\ st[2] = MinSet(ValsOf(s)) /\ st[3] = MaxSet(ValsOf(s))
           /\ (Num(s) = 1..Len(s) => st[4] = SumSeq(s))        \* NaN poisons the sum: compared only without NaN
-\* rows = Seq of <<t, v, d>> of the stored table; rowsback = the same read back from disk
+\* rows = Seq of <<t, v, d, c>> of the stored table; rowsback = the same read back from disk by the library's reader
+\* (load_experiment); c = -1 for a value that is none of the categorical values
 \* bestT = trial of Tuner.best_config() (-1 if none); bestL = trial of the loaded experiment's best_config (-1 if none)
 EvFinal(rows, rowsback, cfgok, bestT, bestL, pstats, ostats) ==
   /\ flags' = flags
